@@ -121,6 +121,11 @@ func matchTypes(typ ObjectType, objs ...Object) bool {
 }
 
 func evalConditional(n *ConditionalExpression, env *Environment) Object {
+	if _, ok := n.Expression.(*Identifier); ok {
+		// an attribute name alone is not a condition, even if the attribute holds a boolean
+		return newError(syntaxErrorTemplate, n.Expression.String())
+	}
+
 	obj := Eval(n.Expression, env)
 	if isError(obj) {
 		return obj
